@@ -5,6 +5,7 @@ import (
 	"flag"
 	"fmt"
 	"math"
+	"math/rand"
 	"strings"
 
 	gpb "github.com/openconfig/gnmi/proto/gnmi"
@@ -331,6 +332,7 @@ func malformedCmd(args []string) *rep.Result {
 	var c common
 	c.register(fs)
 	strMax := fs.Int("strlen", 4, "maximal length of the strings fed to StringToPath")
+	fuzzN := fs.Int("fuzz", 0, "number of byte-level mutations of well-formed documents and paths per package")
 	fs.Parse(args)
 	res := rep.New()
 	defer func() { res.Write(c.out) }()
@@ -481,6 +483,95 @@ func malformedCmd(args []string) *rep.Result {
 			}
 		}
 		cur = next
+	}
+	// byte-level mutation of well-formed inputs (sampled; the seed makes it reproducible): the
+	// grid above is exhaustive over shapes, this covers bytes the shapes do not name
+	if *fuzzN > 0 {
+		rng := rand.New(rand.NewSource(c.seed))
+		structural := []byte(`{}[]",:\/= *0-.enulltrue`)
+		mutate := func(b []byte) []byte {
+			out := append([]byte(nil), b...)
+			for k := 1 + rng.Intn(3); k > 0 && len(out) > 0; k-- {
+				i := rng.Intn(len(out))
+				switch rng.Intn(5) {
+				case 0:
+					out = append(out[:i], out[i+1:]...)
+				case 1:
+					out = append(out[:i], append([]byte{structural[rng.Intn(len(structural))]}, out[i:]...)...)
+				case 2:
+					out[i] = structural[rng.Intn(len(structural))]
+				case 3:
+					j := rng.Intn(len(out))
+					out[i], out[j] = out[j], out[i]
+				default:
+					out = out[:i]
+				}
+			}
+			return out
+		}
+		for _, pkg := range pkgs {
+			root := populatedRoot(pkg)
+			good, err := ygot.Marshal7951(root, &ygot.RFC7951JSONConfig{AppendModuleName: true})
+			if err != nil {
+				continue
+			}
+			sch, _ := pkg.Schema()
+			var paths []string
+			if ns, err := ygot.TogNMINotifications(root, 1, ygot.GNMINotificationsConfig{UsePathElem: true}); err == nil {
+				for _, n := range ns {
+					for _, u := range n.Update {
+						if ps, err := ygot.PathToString(&gpb.Path{Elem: append(append([]*gpb.PathElem{}, n.GetPrefix().GetElem()...), u.Path.GetElem()...)}); err == nil {
+							paths = append(paths, ps)
+						}
+					}
+				}
+			}
+			for i := 0; i < *fuzzN; i++ {
+				doc := mutate(good)
+				for _, opts := range [][]ytypes.UnmarshalOpt{nil, {&ytypes.IgnoreExtraFields{}}} {
+					if _, pan := guard(func() error { return pkg.Unmarshal(doc, populatedRoot(pkg), opts...) }); pan != "" {
+						violate("FUZZ", map[string]string{"api": "Unmarshal", "doc": string(doc)}, pkg, "Unmarshal", pan)
+					}
+				}
+				res.Eval(1)
+				res.Count("fuzz_documents", 1)
+				if len(paths) == 0 || sch == nil {
+					continue
+				}
+				ps := string(mutate([]byte(paths[rng.Intn(len(paths))])))
+				var gp *gpb.Path
+				if _, pan := guard(func() error {
+					var err error
+					gp, err = ygot.StringToStructuredPath(ps)
+					return err
+				}); pan != "" {
+					violate("FUZZ", map[string]string{"api": "StringToStructuredPath", "s": ps}, pkg, "StringToStructuredPath", pan)
+					continue
+				}
+				res.Count("fuzz_paths", 1)
+				if gp == nil {
+					continue
+				}
+				r := populatedRoot(pkg)
+				val := &gpb.TypedValue{Value: &gpb.TypedValue_JsonIetfVal{JsonIetfVal: mutate([]byte(`{"a":"x","k":"a","v":1}`))}}
+				for _, f := range []struct {
+					api string
+					f   func() error
+				}{
+					{"GetNode", func() error {
+						_, err := ytypes.GetNode(sch.RootSchema(), r, gp, &ytypes.GetHandleWildcards{}, &ytypes.GetPartialKeyMatch{})
+						return err
+					}},
+					{"SetNode", func() error { return ytypes.SetNode(sch.RootSchema(), r, gp, val, &ytypes.InitMissingElements{}) }},
+					{"GetOrCreateNode", func() error { _, _, err := ytypes.GetOrCreateNode(sch.RootSchema(), r, gp); return err }},
+					{"DeleteNode", func() error { return ytypes.DeleteNode(sch.RootSchema(), r, gp) }},
+				} {
+					if _, pan := guard(f.f); pan != "" {
+						violate("FUZZ", map[string]string{"api": f.api, "s": ps}, pkg, f.api, pan)
+					}
+				}
+			}
+		}
 	}
 	if res.Distinct == 0 {
 		res.InfraErr("malformed: no cases in %s", c.in)
